@@ -131,8 +131,9 @@ class Model:
 
         self.agents = []
 
-        self.data_collector.agent_statistics = {}
-        self.data_collector.event_statistics = {}
+        if self.data_collector:
+            self.data_collector.agent_statistics = {}
+            self.data_collector.event_statistics = {}
 
         self.reset_cache()
 
